@@ -16,6 +16,8 @@ of a grouped integrand - a Sum tree built by the lifted `+` - is the multiset of
               different values, types, sequence orders, nested values, array entries - are never merged
 
 The oracle's metadata identity is structural (type, value, order), independent of canonicalize_metadata.
+Chains of coordinate derivatives (second shape derivatives, also the same direction twice) are part of the
+family.  C15-key: shared MEMO-KEY rule over domain_analysis.py.
 """
 
 from __future__ import annotations
